@@ -907,6 +907,8 @@ class Mini:
                 return max(recv - args[0], 0)
             if nm == "wrapping_add" and isinstance(recv, int):
                 return (recv + args[0]) & ((1 << INT_BITS[ty]) - 1)
+            if nm == "pow" and isinstance(recv, int) and isinstance(args[0], int):
+                return self.wrapchk(recv ** args[0], ty, "pow")
             if nm == "count_ones" and isinstance(recv, int):
                 return bin(recv).count("1")
         if p.startswith("std::option::Option::<T>::"):
